@@ -312,7 +312,7 @@ pub fn run(ctx: &mut Ctx) {
         dag_case(ctx, &adj, &roots, "random_large");
     }
     let ncfg = if ctx.thorough { 20_000 } else { 1_500 } * ctx.budget;
-    let opts = GenOpts { max_targets: if ctx.thorough { 40 } else { 12 }, allow_dups: true, allow_odd: false };
+    let opts = GenOpts { max_targets: if ctx.thorough { 40 } else { 12 }, allow_dups: true, allow_odd: false, allow_slash: true };
     for _ in 0..ncfg {
         let mut r = ctx.rng.fork();
         let cfg = gen::config(&mut r, &opts);
